@@ -45,6 +45,17 @@
 //! input  = (3 (1 1 1 1) fd 0 itab rtab seed () trigrams words info (pw pc)), pw = the corruption probability
 //!          (0 < pw <= 1), pc = char_edit_prob, both f64 values (0 m e); fd = allow_full_delete (a word that
 //!          became empty is dropped from the text); output = (run1 run2)
+//!
+//! Fourth stream (first field 4): corrupt_spelling as a function of the TEXT, all three modes; the model
+//! computes everything (split_words, clusters, classes, the tables from the dictionary content, every draw):
+//! input  = (4 mode fd seed text items miss (prob pc art temp) aux)
+//!          mode: 0 Artificial(pc, temp, Some(chars)), 1 Realistic(missp), 2 Mixed(art, pc, temp, Some(chars), missp),
+//!                3 Artificial(pc, temp, None), 4 Mixed(art, pc, temp, None, missp)
+//!          items = ((key freq weight) ...): the lines of the character dictionary file; weight = the f64
+//!                  (freq as f64).powf(1.0 / temp) (libm: data for the model); miss = ((word (misspelling ...)) ...)
+//!          aux = what the real crate says about the text (text::split_words with Match::start, CharString
+//!                clusters, Character::is_alphabetic / is_punctuation): compared with the model's by `agree`
+//! output = (run1 run2): ((code points of the corrupted text)) | (-777), two independent runs
 use rand::SeedableRng;
 use rand_chacha::ChaCha8Rng;
 use std::borrow::Cow;
@@ -868,6 +879,383 @@ fn gen_e2e(rng: &mut Rng) -> E2e {
     E2e { trigrams, words, seed: rng.below(1 << 30) as u64, charmode: rng.chance(2, 3), probs, fd }
 }
 
+// ------------------------------------------------------------------ fourth stream: corrupt_spelling from the text
+#[derive(Clone, Debug)]
+struct E4 {
+    mode: u8,
+    fd: bool,
+    seed: u64,
+    text: String,
+    items: Vec<(String, usize)>,
+    miss: Vec<(String, Vec<String>)>,
+    prob: f64,
+    pc: f64,
+    art: f64,
+    temp: f64,
+}
+
+fn e4_has_tables(mode: u8) -> bool {
+    mode == 0 || mode == 2
+}
+fn e4_has_miss(mode: u8) -> bool {
+    mode == 1 || mode == 2 || mode == 4
+}
+
+/// the result of `freq.powf(1.0 / art_temp)` in corrupt_spelling: libm, not modelled, sent as data
+fn e4_weight(f: usize, temp: f64) -> f64 {
+    (f as f64).powf(1.0 / temp)
+}
+
+/// what the real crate says about the text: words, regex parts with their byte offsets, clusters, classes
+fn e4_aux(text: &str) -> Val {
+    Val::L(
+        text_utils::text::split_words(text)
+            .into_iter()
+            .map(|(w, parts)| {
+                let cs = CharString::new(w, true);
+                Val::L(vec![
+                    Val::str(w),
+                    Val::L(parts.unwrap_or_default().iter().map(|(p, start)| Val::L(vec![Val::u(*start), Val::str(p)])).collect()),
+                    Val::L(
+                        (0..cs.len())
+                            .map(|i| {
+                                let c = cs.get(i).unwrap();
+                                let ch = Character { str: c };
+                                Val::L(vec![Val::str(c), Val::b(ch.is_alphabetic()), Val::b(ch.is_punctuation())])
+                            })
+                            .collect(),
+                    ),
+                ])
+            })
+            .collect(),
+    )
+}
+
+fn e4_to_val(e: &E4) -> Val {
+    Val::L(vec![
+        Val::I(4),
+        Val::I(e.mode as i64),
+        Val::b(e.fd),
+        Val::I(e.seed as i64),
+        Val::str(&e.text),
+        Val::L(e.items.iter().map(|(k, f)| Val::L(vec![Val::str(k), Val::u(*f), f64_val(e4_weight(*f, e.temp))])).collect()),
+        Val::L(e.miss.iter().map(|(w, rs)| Val::L(vec![Val::str(w), Val::L(rs.iter().map(|r| Val::str(r)).collect())])).collect()),
+        Val::L(vec![f64_val(e.prob), f64_val(e.pc), f64_val(e.art), f64_val(e.temp)]),
+        e4_aux(&e.text),
+    ])
+}
+
+fn val_e4(v: &Val) -> Option<E4> {
+    let l = v.as_l()?;
+    if l.len() != 9 || l[0].as_i()? != 4 {
+        return None;
+    }
+    let mode = u8::try_from(l[1].as_i()?).ok()?;
+    if mode > 4 {
+        return None;
+    }
+    let fd = l[2].as_bool()?;
+    let seed = u64::try_from(l[3].as_i()?).ok()?;
+    let text = l[4].to_string_lossy()?;
+    if text.chars().count() > 60 {
+        return None;
+    }
+    let mut items: Vec<(String, usize)> = vec![];
+    for it in l[5].as_l()? {
+        let k = it.nth(0)?.to_string_lossy()?;
+        let f = it.nth(1)?.as_usize()?;
+        // Dictionary::load: `line.trim().split('\t')`, lines split at '\n' (a trailing '\r' removed)
+        if k.is_empty() || k.chars().next()?.is_whitespace() || k.contains(['\t', '\n', '\r']) || f > 1 << 40 {
+            return None;
+        }
+        if !items.iter().any(|x| x.0 == k) {
+            items.push((k, f));
+        }
+    }
+    if items.len() > 40 {
+        return None;
+    }
+    let mut miss: Vec<(String, Vec<String>)> = vec![];
+    for m in l[6].as_l()? {
+        let w = m.nth(0)?.to_string_lossy()?;
+        let rs: Vec<String> = m.nth(1)?.as_l()?.iter().map(|r| r.to_string_lossy()).collect::<Option<_>>()?;
+        if rs.len() > 6 {
+            return None;
+        }
+        if !miss.iter().any(|x| x.0 == w) {
+            miss.push((w, rs));
+        }
+    }
+    if miss.len() > 12 {
+        return None;
+    }
+    let p = l[7].as_l()?;
+    if p.len() != 4 {
+        return None;
+    }
+    let (prob, pc, art, temp) = (val_f64(&p[0])?, val_f64(&p[1])?, val_f64(&p[2])?, val_f64(&p[3])?);
+    if !(temp > 0.01 && temp < 100.0) {
+        return None;
+    }
+    Some(E4 { mode, fd, seed, text, items, miss, prob, pc, art, temp })
+}
+
+fn run_e4(e: &E4) -> (Val, Vec<String>) {
+    let dir = format!("/tmp/C15/run4-{}", std::process::id());
+    let _ = std::fs::create_dir_all(&dir);
+    let cpath = format!("{dir}/chars.tsv");
+    let mpath = format!("{dir}/missp.json");
+    let body: String = e.items.iter().map(|(k, f)| format!("{k}\t{f}\n")).collect();
+    let _ = std::fs::write(&cpath, body);
+    let mut map = serde_json::Map::new();
+    for (w, rs) in &e.miss {
+        map.insert(w.clone(), serde_json::Value::Array(rs.iter().map(|r| serde_json::Value::String(r.clone())).collect()));
+    }
+    let _ = std::fs::write(&mpath, serde_json::Value::Object(map).to_string());
+    let mut tags = vec!["t4".to_string(), format!("t4-mode{}", e.mode)];
+    let words: Vec<&str> = e.text.split_whitespace().collect();
+    if !e.text.is_ascii() {
+        tags.push("t4-nonascii".into());
+    }
+    if e4_has_tables(e.mode) {
+        let total: usize = e.items.iter().map(|x| x.1).sum();
+        if e.items.iter().any(|x| (x.1 as f64) / (total as f64) < 1.0 / 10_000.0) {
+            tags.push("t4-filtered".into());
+        }
+        if e.items.iter().enumerate().any(|(i, a)| e.items[..i].iter().any(|b| a.1 == b.1)) {
+            tags.push("t4-tie".into());
+        }
+    }
+    let mut outs = vec![];
+    for run in 0..2 {
+        let (seed, prob, pc, art, temp, fd, mode) = (e.seed, e.prob, e.pc, e.art, e.temp, e.fd, e.mode);
+        let (cp, mp, text) = (cpath.clone(), mpath.clone(), e.text.clone());
+        let res = catch_unwind(AssertUnwindSafe(move || {
+            let m = match mode {
+                0 => SpellingCorruptionMode::Artificial(pc, temp, Some(cp.into())),
+                1 => SpellingCorruptionMode::Realistic(mp.into()),
+                2 => SpellingCorruptionMode::Mixed(art, pc, temp, Some(cp.into()), mp.into()),
+                3 => SpellingCorruptionMode::Artificial(pc, temp, None),
+                _ => SpellingCorruptionMode::Mixed(art, pc, temp, None, mp.into()),
+            };
+            let f = preprocessing(PreprocessingFnConfig::SpellingCorruption(Part::Input, prob, fd, m));
+            let info = TextDataInfo { seed, ..Default::default() };
+            f(TrainData::new(text, None), info).ok().map(|(d, _)| d.verif_input().to_string())
+        }));
+        outs.push(match res {
+            Ok(Some(t)) => {
+                if run == 0 {
+                    let ows: Vec<&str> = t.split(' ').collect();
+                    if t != words.join(" ") {
+                        tags.push("t4-changed".into());
+                        if e.mode != 0 && e.mode != 3 || words.iter().any(|w| CharString::new(w, true).len() > 1) {
+                            tags.push("nt".into());
+                        }
+                        if ows.iter().any(|o| e.miss.iter().any(|(_, rs)| rs.iter().any(|r| r == o))) && e4_has_miss(e.mode) {
+                            tags.push("t4-missp".into());
+                        }
+                    } else {
+                        tags.push("t4-same".into());
+                    }
+                    if ows.len() < words.len() {
+                        tags.push("t4-dropped".into());
+                    }
+                }
+                Val::L(vec![Val::str(&t)])
+            }
+            Ok(None) => Val::L(vec![Val::I(-776)]),
+            Err(_) => {
+                if run == 0 {
+                    tags.push("t4-panic".into());
+                }
+                Val::panic()
+            }
+        });
+    }
+    if outs[0] != outs[1] {
+        tags.push("e2e-nondet".into());
+    }
+    let _ = std::fs::remove_file(&cpath);
+    let _ = std::fs::remove_file(&mpath);
+    let _ = std::fs::remove_dir(&dir);
+    (Val::L(outs), tags)
+}
+
+/// class-rich units: letters (ASCII, Latin-1, precomposed, titlecase, letter number, CJK), base + mark
+/// (not alphabetic as a cluster), digits and other numbers, punctuation of several categories, symbols,
+/// Join_Control, and a few seam-prone code points
+const UNITS4: &[&str] = &[
+    "a", "b", "c", "a", "b", "c", "d", "ä", "é", "ß", "Σ", "ª", "ǅ", "ⅷ", "中", "e\u{301}", "n\u{303}", "0", "7", "²", "½", ".", "-", "„",
+    "’", "_", "¿", "$", "☺", "😀", "\u{345}",
+];
+const UNITS4_SEAMY: &[&str] = &["\u{301}", "\u{200d}", "🇩", "🇪", "\u{1100}", "\u{1161}", "क", "\u{94d}", "\u{a7ce}"];
+const SEPS4: &[&str] = &[" ", " ", " ", " ", "  ", "\t", "\n", "\u{a0}", "\u{2003}", " \u{3000}"];
+
+fn unit4(rng: &mut Rng) -> &'static str {
+    if rng.chance(1, 12) {
+        *rng.pick(UNITS4_SEAMY)
+    } else {
+        *rng.pick(UNITS4)
+    }
+}
+
+fn gen_prob(rng: &mut Rng) -> f64 {
+    match rng.below(8) {
+        0 | 1 => 1.0,
+        2 => 0.5,
+        3 => 0.25,
+        4 => 0.9,
+        _ => (1 + rng.below(1 << 20)) as f64 / (1u64 << 20) as f64 * if rng.chance(1, 2) { 1.0 } else { 0.999_999_999_9 },
+    }
+}
+
+fn gen_e4(rng: &mut Rng) -> E4 {
+    let mode = match rng.below(10) {
+        0..=3 => 0u8,
+        4 | 5 => 1,
+        6 | 7 => 2,
+        8 => 3,
+        _ => 4,
+    };
+    let nw = rng.range(1, 4);
+    let ascii_only = rng.chance(1, 5);
+    let words: Vec<String> = (0..nw)
+        .map(|_| {
+            (0..rng.range(1, 4))
+                .map(|_| if ascii_only { *rng.pick(&["a", "b", "c", "0", ".", "-"]) } else { unit4(rng) })
+                .collect::<String>()
+        })
+        .collect();
+    let mut text = String::new();
+    if rng.chance(1, 8) {
+        text.push_str(*rng.pick(SEPS4));
+    }
+    for (i, w) in words.iter().enumerate() {
+        if i > 0 {
+            text.push_str(*rng.pick(SEPS4));
+        }
+        text.push_str(w);
+    }
+    if rng.chance(1, 8) {
+        text.push_str(*rng.pick(SEPS4));
+    }
+    // the character dictionary: 3-grams around the clusters of the words, then random ones
+    let mut items: Vec<(String, usize)> = vec![];
+    if e4_has_tables(mode) {
+        let sep = |rng: &mut Rng| -> &'static str {
+            match rng.below(16) {
+                0 => "  ",
+                1 => "\u{a0}",
+                2 => " \u{2003}",
+                _ => " ",
+            }
+        };
+        let mut push = |rng: &mut Rng, p: String, c: String, n: String, f: usize| {
+            let k = format!("{p}{}{c}{}{n}", sep(rng), sep(rng));
+            if !items.iter().any(|x| x.0 == k) {
+                items.push((k, f));
+            }
+        };
+        for w in &words {
+            let cs: Vec<String> = split(w, true);
+            let at = |i: isize| -> String {
+                if i < 0 {
+                    "<bow>".into()
+                } else if i as usize >= cs.len() {
+                    "<eow>".into()
+                } else {
+                    cs[i as usize].clone()
+                }
+            };
+            for i in 0..=cs.len() as isize {
+                if rng.chance(1, 2) {
+                    let c = unit4(rng).to_string();
+                    let f = rng.range(1, 5);
+                    push(rng, at(i - 1), c, at(i), f);
+                }
+                if (i as usize) < cs.len() && rng.chance(1, 2) {
+                    let f = rng.range(1, 5);
+                    push(rng, at(i - 1), at(i), at(i + 1), f);
+                    let c = unit4(rng).to_string();
+                    let f = rng.range(1, 5);
+                    push(rng, at(i - 1), c, at(i + 1), f);
+                }
+            }
+        }
+        for _ in 0..rng.range(0, 8) {
+            let p = if rng.chance(1, 4) { "<bow>".to_string() } else { unit4(rng).to_string() };
+            let n = if rng.chance(1, 4) { "<eow>".to_string() } else { unit4(rng).to_string() };
+            // now and then an edit string of two units, or one that is not a cluster on its own
+            let c = if rng.chance(1, 8) { format!("{}{}", unit4(rng), unit4(rng)) } else { unit4(rng).to_string() };
+            let f = rng.range(1, 5);
+            push(rng, p, c, n, f);
+        }
+        match rng.below(24) {
+            0 => {
+                // a key that is not a 3-gram: panics when it passes the filter
+                let k = if rng.chance(1, 2) { "a b".to_string() } else { "a b c d".to_string() };
+                items.push((k, rng.range(1, 5)));
+            }
+            1 | 2 => {
+                // the relative-frequency filter: one heavy item, so that frequency k sits at the
+                // threshold k / total < 1e-4 (total = 10000 k + d)
+                let small: usize = items.iter().map(|x| x.1).sum();
+                let k = rng.range(1, 5);
+                let d = rng.below(5) as isize - 2;
+                let heavy = (10_000 * k) as isize + d * rng.range(1, 3) as isize - small as isize;
+                if heavy > 0 {
+                    items.push(("<bow> x <eow>".into(), heavy as usize));
+                }
+            }
+            3 => {
+                // a frequency of zero
+                if let Some(x) = items.first_mut() {
+                    x.1 = 0;
+                }
+            }
+            _ => {}
+        }
+        rng.shuffle(&mut items);
+    }
+    // misspellings: of whole words and of their regex parts
+    let mut miss: Vec<(String, Vec<String>)> = vec![];
+    if e4_has_miss(mode) {
+        let repl = |rng: &mut Rng| -> String {
+            match rng.below(10) {
+                0 => String::new(),
+                1 => format!("{} {}", unit4(rng), unit4(rng)),
+                _ => (0..rng.range(1, 3)).map(|_| unit4(rng)).collect(),
+            }
+        };
+        let mut add = |rng: &mut Rng, w: String| {
+            if !miss.iter().any(|x| x.0 == w) {
+                let n = if rng.chance(1, 30) { 0 } else { rng.range(1, 3) };
+                let rs = (0..n).map(|_| repl(rng)).collect();
+                miss.push((w, rs));
+            }
+        };
+        for (w, parts) in text_utils::text::split_words(&text) {
+            if rng.chance(1, 3) {
+                add(rng, w.to_string());
+            }
+            for (p, _) in parts.unwrap_or_default() {
+                if rng.chance(1, 2) {
+                    add(rng, p.to_string());
+                }
+            }
+        }
+        if rng.chance(1, 3) {
+            let u = unit4(rng).to_string();
+            add(rng, u);
+        }
+    }
+    let prob = if rng.chance(1, 40) { 0.0 } else if rng.chance(1, 30) { 1.5 } else { gen_prob(rng) };
+    let pc = if rng.chance(1, 6) { 0.0 } else { gen_prob(rng) };
+    let art = if rng.chance(1, 10) { 0.0 } else if rng.chance(1, 10) { 1.0 } else if rng.chance(1, 20) { 2.5 } else { gen_prob(rng) };
+    let temp = *rng.pick(&[2.0, 2.0, 1.0, 3.0, 0.7]);
+    E4 { mode, fd: rng.chance(1, 2), seed: rng.below(1 << 30) as u64, text, items, miss, prob, pc, art, temp }
+}
+
 // ------------------------------------------------------------------ generators
 const ALPHA: &[&str] = &["a", "b", "a", "b", "c", "0", ".", "-", "ä"];
 const ALPHA_G: &[&str] = &["a", "b", "a", "b", "0", ".", "ä", "e\u{301}", "😀", "n\u{303}"];
@@ -1060,6 +1448,9 @@ impl Prop for C15 {
             let e = gen_e2e(rng);
             return e2e_to_val(&e, &mut self.cache);
         }
+        if rng.chance(1, 6) {
+            return e4_to_val(&gen_e4(rng));
+        }
         let g = rng.chance(1, 2);
         let probe = g && rng.chance(1, 7);
         let seam = probe || (g && rng.chance(1, 4));
@@ -1147,6 +1538,13 @@ impl Prop for C15 {
     }
 
     fn run(&mut self, input: &Val) -> Option<(Val, Vec<String>)> {
+        if input.nth(0).and_then(|x| x.as_i()) == Some(4) {
+            let e = val_e4(input)?;
+            if e4_to_val(&e) != *input {
+                return None;
+            }
+            return Some(run_e4(&e));
+        }
         if matches!(input.nth(0).and_then(|x| x.as_i()), Some(2) | Some(3)) {
             let e = val_e2e(input)?;
             if e2e_to_val(&e, &mut self.cache) != *input {
@@ -1164,6 +1562,9 @@ impl Prop for C15 {
     }
 
     fn canon(&mut self, input: &Val) -> Option<Val> {
+        if input.nth(0).and_then(|x| x.as_i()) == Some(4) {
+            return Some(e4_to_val(&val_e4(input)?));
+        }
         if matches!(input.nth(0).and_then(|x| x.as_i()), Some(2) | Some(3)) {
             let e = val_e2e(input)?;
             return Some(e2e_to_val(&e, &mut self.cache));
@@ -1175,6 +1576,10 @@ impl Prop for C15 {
 
     fn selfcheck(&mut self) -> Vec<String> {
         let mut errs = seam::cats_selfcheck();
+        // the constant of the relative-frequency filter (C15_Tables.min_rel_freq, pinned as min_rel_freq_bits)
+        if f64_val(1.0 / 10_000.0).to_sexp() != "(0 7378697629483821 -66)" {
+            errs.push("min_rel_freq constant".into());
+        }
         // the context strings of the model
         if Val::str("<bow>").to_sexp() != "(60 98 111 119 62)" || Val::str("<eow>").to_sexp() != "(60 101 111 119 62)" {
             errs.push("bow/eow constants".into());
